@@ -2212,12 +2212,13 @@ func (m *repoManager) newData(uuid dvid.UUID, t TypeService, name dvid.InstanceN
 		return nil, err
 	}
 
-	m.idMutex.Lock()
-	m.iids[id] = dataservice
-	m.dataByUUID[dataservice.DataUUID()] = dataservice
-	m.idMutex.Unlock()
-
+	// Register the name.  The check above was made under a read lock that has since been released,
+	// so re-check under the write lock: a concurrent request may have taken the name in the meantime.
 	r.Lock()
+	if _, found := r.data[name]; found {
+		r.Unlock()
+		return nil, fmt.Errorf("Data named %q already exists in repo (root %s)", name, r.uuid)
+	}
 	r.data[name] = dataservice
 	tm := time.Now()
 	r.updated = tm
@@ -2225,6 +2226,11 @@ func (m *repoManager) newData(uuid dvid.UUID, t TypeService, name dvid.InstanceN
 	message := fmt.Sprintf("%s  %s", tm.Format(time.RFC3339), msg)
 	r.log = append(r.log, message)
 	r.Unlock()
+
+	m.idMutex.Lock()
+	m.iids[id] = dataservice
+	m.dataByUUID[dataservice.DataUUID()] = dataservice
+	m.idMutex.Unlock()
 
 	// If it can be initialized (e.g., start sync handlers, etc), do it.
 	initializer, initializable := dataservice.(DataInitializer)
